@@ -50,3 +50,24 @@ pub(crate) trait Index<Idx> {
 /// bit](crate::bits::BitVec::reset) vector, should pass this argument to
 /// [IndexedParallelIterator::with_min_len](`rayon::iter::IndexedParallelIterator::with_min_len`).
 pub const RAYON_MIN_LEN: usize = 100_000;
+
+/// Verification hooks (add-only, compiled only with the `sux_verif` feature).
+#[cfg(feature = "sux_verif")]
+pub mod verif {
+    /// Scheduling hook: when set, it is called with a site identifier and the
+    /// address of the word involved immediately before every atomic load,
+    /// read-modify-write or compare-exchange of the atomic bit vectors and
+    /// bit-field vectors, and (identifier with bit `0x100` set) immediately
+    /// after every successful atomic write. An external scheduler or an
+    /// interference model can be plugged in here.
+    pub static mut SCHED_HOOK: Option<fn(usize, *const u8)> = None;
+
+    #[inline(always)]
+    pub fn sched_point(id: usize, addr: *const u8) {
+        unsafe {
+            if let Some(f) = SCHED_HOOK {
+                f(id, addr)
+            }
+        }
+    }
+}
